@@ -332,6 +332,33 @@ pub fn run_live(a: &Args) {
             }
         }
     }
+    // ---- a writer that has already served a request against a much larger thread list: its second image is small (every
+    // scenario thread has meanwhile been taken by another tracer and is left out), and nothing recorded for the first image
+    // may be referenced by it - at any boundary between two destination calls
+    {
+        let threads: Vec<ThreadSpec> = (0..24).map(|i| ThreadSpec { kind: Kind::Block, sp_off: 0x10, pages: 2, name: Some(format!("h{i}").into_bytes()), at: None }).collect();
+        let scen = Scenario { threads, lines: vec!["anon 3 rwx 1".into(), "anon 2 rw- 0".into(), "anon 1 r-x 1".into()] };
+        if let Ok(target) = Target::spawn(&scen, &work) {
+            let blamed = *target.tids.last().unwrap();
+            let mut w = minidump_writer::minidump_writer::MinidumpWriter::new(target.pid, blamed);
+            let mut d1 = RecDest::new(vec![], 0, false);
+            let first = quiet_catch(std::panic::AssertUnwindSafe(|| w.dump(&mut d1).map(|i| i.len()).map_err(|e| format!("{e:?}"))));
+            target.settle();
+            unsafe { for t in &target.tids { libc::ptrace(libc::PTRACE_SEIZE, *t, 0, 0); libc::ptrace(libc::PTRACE_INTERRUPT, *t, 0, 0); let mut st = 0; libc::waitpid(*t, &mut st, libc::__WALL); } }
+            let mut d2 = RecDest::new(vec![], 0, true);
+            let second = quiet_catch(std::panic::AssertUnwindSafe(|| w.dump(&mut d2).map(|i| i.len()).map_err(|e| format!("{e:?}"))));
+            unsafe { for t in &target.tids { libc::ptrace(libc::PTRACE_DETACH, *t, 0, 0); } }
+            let mut l = Line::new("const"); l.u(999).u(2); let mut r = Line::bare();
+            let mut bad: Option<String> = None;
+            for (k, (written, content)) in d2.snaps.iter().enumerate() { if !*written { continue; }
+                if !consistent_rs(content, 32, 18) { bad = Some(format!("after destination call {k} of the second request of a writer the {} bytes written so far are not a consistent truncated minidump", content.len())); break; }
+                if let Err(e) = crate::c01::references_inside(content) { bad = Some(format!("after destination call {k} of the second request of a writer a stream already named by the directory references data that is not present: {e}")); break; } }
+            match (&first, &second, bad) { (Ok(Ok(n1)), Ok(Ok(n2)), None) => { r.u(999).u(2); out.count("history.second_request_after_larger_first"); out.count_n("snapshots.checked", d2.snaps.len() as u64); out.notes.push(format!("reused writer: first image {n1} bytes, second {n2} bytes")); }
+                (_, _, Some(b)) => { r.0 = format!("!{b}"); }
+                (f, s2, None) => { r.0 = format!("!reused-writer history did not complete: first {f:?} second {s2:?}").replace('\n', " ").chars().take(300).collect(); } }
+            out.case(l.s(), r.s(), true);
+        }
+    }
     out.assumptions.push("a destination may accept fewer bytes than offered per write call (std::io::Write contract); an injected error does not modify the destination".into());
     out.finish(&a.out, "whole dumps of live targets into a destination pre-filled with old content and positioned at offsets {0,1,4095,12345}: clean, with writes limited to {1,7,64,100,4096} bytes per call, with a snapshot after every call, and with an I/O error injected at a call k (random k in the quick tier, every k in the thorough tier): on Ok the stored bytes equal the returned image and nothing before the start or beyond the image changes; on Err the destination is a consistent truncated minidump; snapshots judged by a Rust transcription of consistent_b and a sample by the extracted predicate");
 }
